@@ -219,7 +219,8 @@ void HistoryJob(ck::Node& n, const std::string& fmt, const std::vector<int>& h, 
     const std::set<std::string> saved_ids = saved.ids();
     int64_t tmin = INT64_MAX, tmax = g_t0, dump_time = g_t0 + 3600 * std::count(h.begin(), h.end(), (int)OP_T);
     for (auto& e : saved.entries) { tmin = std::min(tmin, e.time); tmax = std::max(tmax, e.time); }
-    std::set<int64_t> nows = {dump_time};
+    std::set<int64_t> nows;
+    if (saved.entries.empty() || h.size() <= 2) nows.insert(dump_time);
     if (!saved.entries.empty()) { nows.insert(tmin + g_expiry - 1); nows.insert(tmin + g_expiry); nows.insert(tmax + g_expiry); }
     for (int64_t now : nows) {
         const std::string vtag = " load_time=dump" + std::string(now >= dump_time ? "+" : "") + std::to_string(now - dump_time);
@@ -389,8 +390,11 @@ int main(int argc, char** argv)
         // ---- part 1
         {
             std::vector<std::vector<int>> hist;
-            Histories(big ? 4 : 3, hist);
-            if (!big && fmt == "v1") { std::vector<std::vector<int>> h2; for (size_t i = 0; i < hist.size(); i++) if (hist[i].size() <= 2 || i % 3 == 0) h2.push_back(hist[i]); hist = h2; }
+            // v2 (the default format) gets the deep enumeration, v1 a shallow one plus three fixed longer histories
+            const int depth = fmt == "v2" ? (big ? 4 : 2) : (big ? 2 : 1);
+            Histories(depth, hist);
+            if (fmt == "v1") { hist.push_back({OP_A, OP_T, OP_B}); hist.push_back({OP_A, OP_C, OP_D}); hist.push_back({OP_PA, OP_A, OP_UA}); }
+            if (depth < 3) { hist.push_back({OP_A, OP_T, OP_C}); hist.push_back({OP_C, OP_T, OP_A, OP_UA, OP_B}); } // entries of different age: partial loads
             fp::Pool pool;
             pool.workers = std::min<unsigned>(vx::ncpu(), 12);
             pool.run(hist.size(), [&](uint64_t j, fp::Out& out) { HistoryJob(node, fmt, hist[j], j, out); }, [&](uint64_t j) { return "format=" + fmt + " history=[" + HistStr(hist[j]) + "]"; });
@@ -421,18 +425,27 @@ int main(int argc, char** argv)
             }
             const std::string cfg = "format=" + fmt + " pool_before=" + (target == 0 ? "{E1,E2}" : "{E1,E2,C}");
             std::vector<Mut> muts;
-            const bool full = big && (fmt == "v1" || target == 0);
-            if (!big && !(fmt == "v1" || target == 0)) continue;
-            for (size_t len = 0; len < dump.size(); len++) {
-                if (full || (fmt == "v1" && target == 0 && (len < 48 || len % 4 == 0 || len + 80 > dump.size())) || (!(fmt == "v1" && target == 0) && (len < 24 || len % 16 == 0 || len + 8 > dump.size()))) muts.push_back({0, len, 0});
+            // grid per configuration: truncation step / flip step / which flips
+            //   thorough: v1 {E1,E2}: everything;  v2 {E1,E2}: every 2nd length, ^0x80 of every 2nd byte;  v1 {E1,E2,C}: every 8th length, ^0x01 of every 2nd byte
+            //   quick:    v1 {E1,E2}: lengths 0..24, every 16th, last 12; ^0x01 of every 8th byte;  v2 {E1,E2}: every 32nd length, ^0x80 of every 16th byte;  v1 {E1,E2,C}: ^0x01 of every 16th byte
+            if (fmt == "v2" && target == 1) continue;
+            const bool main_cfg = fmt == "v1" && target == 0;
+            size_t tstep, fstep;
+            unsigned char fx[2] = {0, 0};
+            if (big) {
+                if (main_cfg) { tstep = 1; fstep = 1; fx[0] = 0x01; fx[1] = 0x80; }
+                else if (fmt == "v2") { tstep = 2; fstep = 2; fx[0] = 0x80; }
+                else { tstep = 8; fstep = 2; fx[0] = 0x01; }
+            } else {
+                if (main_cfg) { tstep = 16; fstep = 8; fx[0] = 0x01; }
+                else if (fmt == "v2") { tstep = 32; fstep = 16; fx[0] = 0x80; }
+                else { tstep = 0; fstep = 16; fx[0] = 0x01; }
             }
+            for (size_t len = 0; len < dump.size(); len++)
+                if (tstep && (len % tstep == 0 || (main_cfg && (len <= 24 || len + 12 >= dump.size())))) muts.push_back({0, len, 0});
             for (size_t i = 0; i < dump.size(); i++)
-                for (unsigned char x : {(unsigned char)0x01, (unsigned char)0x80}) {
-                    bool take = full;
-                    if (!full && big) take = x == 0x01;                                                   // thorough, v2 with overlap: one flip per byte
-                    if (!big) take = (fmt == "v1" && target == 0) ? (x == 0x01 && (i < 64 || i % 3 == 0 || i + 100 > dump.size())) : (x == 0x80 && i % 8 == 0);
-                    if (take) muts.push_back({1, i, x});
-                }
+                for (unsigned char x : fx)
+                    if (x && i % fstep == 0) muts.push_back({1, i, x});
             fp::Pool pool;
             pool.workers = std::min<unsigned>(vx::ncpu(), 12);
             pool.run(muts.size(), [&](uint64_t j, fp::Out& out) { FaultJob(node, cfg, dump, muts[j], j, out); }, [&](uint64_t j) { return cfg + " " + MutStr(muts[j]); });
@@ -450,9 +463,9 @@ int main(int argc, char** argv)
     E.set_str("dump_sizes", sizes);
     for (auto& s : samples) E.sample(s);
     E.sample("fault dump = {A, B(child of A), C, prioritised A +5000, prioritised absent txid -700, A unbroadcast}");
-    E.rule = std::string("part 1: every valid operation sequence of length <=") + (big ? "4" : "3 (v1 format: lengths <=2 and every third longer one)") + " over {submit A, B(child of A), C, D(spends A and C), prioritise A, prioritise absent txid, mark A/C unbroadcast, +1h} x file format {v1,v2} x load time {dump, oldest+expiry-1, oldest+expiry, newest+expiry}: DumpMempool in one fork, LoadMempool in another, normal submission of the unexpired saved transactions in a twin; "
-             "part 2: one 3-transaction dump per format, " + (big ? "every truncation length and every byte x {^0x01,^0x80} (v2 with an overlapping pool: one flip per byte)" : "truncations at every length of the header and every 4th length beyond, flips ^0x01 of every byte of the first 64 and last 100 and every third byte (reduced grids for the other configurations)") +
-             " loaded into a node holding {E1,E2} and {E1,E2,C}; pool afterwards compared with normal submission of exactly the entered transactions in a twin. distinct_nontrivial = distinct (history, load time) pairs + truncations + damaged files that failed to load or let a transaction in";
+    E.rule = std::string("part 1: every valid operation sequence of length <=") + (big ? "4 (v2 format; v1: <=2 plus 5 fixed longer ones)" : "2 (v2 format; v1: <=1 plus 5 fixed longer ones; v2 plus 2)") + " over {submit A, B(child of A), C, D(spends A and C), prioritise A, prioritise absent txid, mark A/C unbroadcast, +1h} x load time {oldest+expiry-1, oldest+expiry, newest+expiry (+ dump time for short histories)}: DumpMempool in one fork, LoadMempool in another, normal submission of the unexpired saved transactions in a twin; "
+             "part 2: one 3-transaction dump per format damaged and loaded into a node holding {E1,E2} / {E1,E2,C}: " + (big ? "v1 {E1,E2}: every truncation length and every byte x {^0x01,^0x80}; v2 {E1,E2}: every 2nd length and ^0x80 of every 2nd byte; v1 {E1,E2,C}: every 8th length and ^0x01 of every 2nd byte" : "v1 {E1,E2}: truncation to 0..24, every 16th length and the last 12, ^0x01 of every 8th byte; v2 {E1,E2}: every 32nd length, ^0x80 of every 16th byte; v1 {E1,E2,C}: ^0x01 of every 16th byte") +
+             "; pool afterwards compared with normal submission of exactly the entered transactions in a twin. distinct_nontrivial = distinct (history, load time) pairs + truncations + damaged files that failed to load or let a transaction in";
     E.assume("both nodes share the chain (forks of one process at height 110); transactions are anyone-can-spend P2WSH(OP_TRUE) spends, so a bit flip can yield a different valid transaction - the twin decides whether normal submission accepts it; the clock is mock time");
     if (!cut && vx::rep().violations == 0) {
         const char* miss = nullptr;
